@@ -67,6 +67,14 @@ def validate(module, cfg, traces, tag, shards=16, timeout=1800, deque=False, kee
         futs = [ex.submit(_run_shard, module, cfg, files[j], "%s-%02d" % (tag, j), timeout, deque)
                 for j in range(nsh)]
         results = [f.result() for f in futs]
+    # a shard whose TLC process did not finish (killed under memory pressure, timed out on an overloaded machine) is run
+    # again, alone, before it is called a machinery failure: a transient failure is never a verdict
+    for j, r in enumerate(results):
+        tries = 0
+        while (r["error"] or not r["finished"]) and not r["violated"] and tries < 2:
+            tries += 1
+            r = _run_shard(module, cfg, files[j], "%s-%02d-r%d" % (tag, j, tries), timeout, deque)
+            results[j] = r
     verdicts = [None] * len(traces)
     stats = {"generated": 0, "distinct": 0, "wall_s": time.time() - t0, "tlc_runs": nsh}
     for j, r in enumerate(results):
